@@ -76,7 +76,15 @@ var ErrBudget = errMaxSteps
 // error text ("" when the parse is accepted) and whether it was accepted.
 // maxSteps bounds the work (0 = unlimited); exceeding it returns ErrBudget.
 func Run(g *Grammar, code *Code, data []byte, maxSteps uint64, cov *Coverage) (val interface{}, errText string, err error) {
+	val, errText, _, err = RunSteps(g, code, data, maxSteps, cov)
+	return
+}
+
+// RunSteps is Run plus the number of expression nodes the parse entered (the
+// quantity pigeon counts as Stats.ExprCnt).
+func RunSteps(g *Grammar, code *Code, data []byte, maxSteps uint64, cov *Coverage) (val interface{}, errText string, steps uint64, err error) {
 	e := &engine{g: g, code: code, data: data, maxSteps: maxSteps, cov: cov}
+	defer func() { steps = e.steps }()
 	e.pt = savepoint{position: position{line: 1}}
 	e.maxFailPos = position{col: 1, line: 1}
 	budget := false
@@ -125,7 +133,7 @@ func Run(g *Grammar, code *Code, data []byte, maxSteps uint64, cov *Coverage) (v
 		val = v
 	}()
 	if budget {
-		return nil, "", ErrBudget
+		return nil, "", e.steps, ErrBudget
 	}
 	// dedupe by message, keep order
 	seen := map[string]bool{}
@@ -136,7 +144,7 @@ func Run(g *Grammar, code *Code, data []byte, maxSteps uint64, cov *Coverage) (v
 			msgs = append(msgs, m)
 		}
 	}
-	return val, strings.Join(msgs, "\n"), nil
+	return val, strings.Join(msgs, "\n"), e.steps, nil
 }
 
 func listJoin(list []string, sep, lastSep string) string {
